@@ -421,7 +421,7 @@ fn sweep<T: SeedSubject>(info: &TypeInfo, kind: Option<Kind>, job: &SweepJob) ->
             let f = failure.into_inner().unwrap();
             SweepResult { elements: done, failure: f.as_ref().map(|x| x.0.clone()), failing_input: f.map(|x| x.1) }
         }
-        SweepJob::U64Cube { base, shift, bits } => {
+        SweepJob::U64Cube { base, shift, bits, check_expansion } => {
             let total: u64 = 1u64 << bits;
             let len = info.seed_len;
             let expansion: fn(u64, usize) -> Vec<u8> = match info.family {
@@ -449,9 +449,8 @@ fn sweep<T: SeedSubject>(info: &TypeInfo, kind: Option<Kind>, job: &SweepJob) ->
                         let x = (base & !mask) | (v << shift);
                         n += 1;
                         let g = T::seed_from_u64(x);
-                        let e = T::from_seed(mk_seed::<T>(&expansion(x, len)));
                         let mut bad = None;
-                        if g.s_eq(&e) != Some(true) {
+                        if *check_expansion && g.s_eq(&T::from_seed(mk_seed::<T>(&expansion(x, len)))) != Some(true) {
                             bad = Some("seed_from_u64(x) != from_seed(documented expansion of x)".to_string());
                         } else if let Some(z) = &zero {
                             if g.s_eq(z) == Some(true) {
